@@ -108,6 +108,22 @@ def recipes_for(built, plan, si=0):
           r = [modes.rule('.*', '*', m),
                modes.rule(modes.op_regex(built, meta), meta.type, om)]
           base.append((f'R4:{m}+op{k}={om}', r, 'layered'))
+  if plan.get('shadow'):
+    # R5: a '*' rule most operators do not support, followed by an
+    # operator-specific rule stored under the SAME regex: the unsupported rule
+    # must be skipped for the operator, not end the scan of that regex
+    types = []
+    for meta in built.ops[si]:
+      if meta.type in irm.SUPPORTED and meta.type not in types:
+        types.append(meta.type)
+    for m in plan['shadow']['base']:
+      for t in types:
+        for om in plan['shadow']['override']:
+          if not modes.supported(t, om):
+            continue
+          base.append((f'R5:{m}+{t}={om}',
+                       [modes.rule('.*', '*', m), modes.rule('.*', t, om)],
+                       'layered'))
   ios = plan.get('io', ['none'])
   for key, r, cls in base:
     for io in ios:
